@@ -1,12 +1,13 @@
-import GaeaVerif.Lemmas.C13Rows
+import GaeaVerif.Lemmas.C13Big
 import GaeaVerif.Gen.Consts
 /-
   C13 — Prepared-statement results carry the same values as the backend's
   text results.
 
   Model: `Model/BinRow.lean` (`RowData.ParseText`, `BuildBinaryResultset`,
-  `AppendBinaryValue`, `stringToMysqlTime`, `mysqlTimeToBinaryResult`, with the
-  library functions they call).  Reference semantics: `Spec/BinProto.lean`
+  `integerFitsColumn`, `AppendBinaryValue`, `splitTextDate(time)`,
+  `stringToMysqlTime`, `mysqlTimeToBinaryResult`, with the library functions
+  they call).  Reference semantics: `Spec/BinProto.lean`
   (`denoteText`: the value a text cell denotes; `decodeBinRow`: an independent
   decoder of the binary row format).  Helper lemmas: `Lemmas/C13*.lean`.
   The tie to /repo/mysql is the correspondence check `gvh run C13` and the
@@ -26,6 +27,18 @@ import GaeaVerif.Gen.Consts
   decimals compared as numbers, everything else literally); the model's other
   outcome is `err kind`, never a panic (`no_panic`).
 
+  Beyond the values of the type (second half of this file).  `readText`
+  widens `denoteText` to every text that still reads as a number or a date (an
+  integer of any magnitude, any two-digit month and day): `C13_row_exact`,
+  `C13_resultset_exact`.  `serverRow` is the domain on which the proxy must
+  deliver the value, not merely refrain from sending another one:
+  `C13_row_delivered`, `C13_resultset_delivered`.  The column definitions
+  (`Model/ColDef.lean`: `FieldData.Parse`, `writeColumnDefinition`, the whole
+  COM_STMT_EXECUTE result `stmtResult`): `C13_coldef_forwarded`,
+  `C13_stmt_result_correct`, `C13_stmt_result_delivered`.  Byte strings of any
+  length: `big_cell_row`.  One open finding with its witness:
+  `date_garbage_zero_witness`.
+
   Floats (assumption `FloatOpsOk`): IEEE arithmetic is not modelled; the three
   functions of `FloatOps` are parameters, so for FLOAT/DOUBLE columns the
   theorems say that the binary row carries exactly `toF32 (parseFloat text)` /
@@ -33,7 +46,7 @@ import GaeaVerif.Gen.Consts
   bit patterns.
 -/
 namespace GaeaVerif.C13
-open GaeaVerif GaeaVerif.BinRow GaeaVerif.BinProto GaeaVerif.LenEnc
+open GaeaVerif GaeaVerif.BinRow GaeaVerif.BinProto GaeaVerif.LenEnc GaeaVerif.ColDef
 
 /-! ### tie to the source: constants and call structure (regenerated on every run) -/
 
@@ -56,6 +69,22 @@ theorem type_codes_match :
     `BuildBinaryResultSet` when the response is binary. -/
 theorem binary_writers_convert :
     Gen.c13WriteResponseBuildsBinary = true ∧ Gen.c13ResultStreamBuildsBinary = true := by decide
+
+set_option maxRecDepth 20000 in
+/-- The tables of the encoder model are those of the source: the column types
+    the append phase of `AppendBinaryValue` sends as length-encoded strings and
+    the ones it appends as they are; `BuildBinaryResultset` guards
+    `AppendBinaryValue` by `integerFitsColumn`; `writeColumnDefinition` writes,
+    after the 0x0c byte, character set (2), column length (4), type (1), flags
+    (2), decimals (1) and two zero bytes — the layout of `ColDef.writeColumnDefinition`
+    and of the spec's `columnDefTail`. -/
+theorem encoder_tables_match :
+    (List.range 256).all (fun ty => isLenEncFieldType ty == Gen.c13LenEncAppendTypes.contains ty) = true
+    ∧ (List.range 256).all (fun ty => isRawFieldType ty == Gen.c13RawAppendTypes.contains ty) = true
+    ∧ Gen.c13BuildChecksIntegerRange = true
+    ∧ Gen.c13ColumnDefFixedPart
+        = [("Charset", 2), ("ColumnLength", 4), ("Type", 1), ("Flag", 2), ("Decimal", 1), ("0", 2)] := by
+  refine ⟨by decide, by decide, by decide, by decide⟩
 
 /-! ### the null bitmap -/
 
@@ -336,5 +365,293 @@ theorem no_panic (ops : FloatOps) (fields : List Field) (rows : List Bytes) :
   cases hp : parseRows ops fields rows with
   | err e => have := hparse rows; rw [hp] at this; simpa using this
   | ok vals => exact hbuild vals
+
+/-! ### what the text says, also outside the column type's range
+
+  `C13_row_correct` speaks about the values of a column type.  The statements
+  below widen the domain to every text that still reads as a number or a date
+  (`readText`: an integer of any magnitude, a date or datetime with any
+  two-digit month and day): whatever the proxy sends for such a row decodes to
+  what the text says — an integer the column's width cannot carry is refused
+  (`integerFitsColumn`), never sent as its low bytes. -/
+
+/-- **Integers of any magnitude.** A text integer that `ParseText` accepts and
+    that passes the range check of `BuildBinaryResultset` is sent as the bytes
+    the decoder reads back as the same integer; no hypothesis on its range. -/
+theorem enc_dec_int_checked (ops : FloatOps) (ty flag w : Nat) (cell : Bytes) (x : Int) (v : GoVal) (b rest : Bytes)
+    (hwid : intWidth ty = some w) (hx : intText cell = some x)
+    (hpt : parseTextValue ops ⟨ty, flag⟩ cell = .ok v)
+    (hfit : integerFitsColumn ⟨ty, flag⟩ v = true)
+    (habv : appendBinaryValue ops ty v = .ok b) :
+    decodeValue ⟨ty, flag⟩ (b ++ rest) = some (.int x, rest) :=
+  int_col ops ty flag w cell x v b rest hwid hx (fits_range ops ty flag w cell x v hwid hx hpt hfit) hpt habv
+
+/-- TINYINT UNSIGNED 200 travels as 0xc8 and is read back as 200; a signed
+    TINYINT column refuses it. -/
+example : parseTextValue exOps ⟨TypeTiny, 32⟩ [50, 48, 48] = .ok (.u64 200)
+    ∧ integerFitsColumn ⟨TypeTiny, 32⟩ (.u64 200) = true
+    ∧ appendBinaryValue exOps TypeTiny (.u64 200) = .ok [200]
+    ∧ decodeValue ⟨TypeTiny, 32⟩ [200] = some (.int 200, [])
+    ∧ parseTextValue exOps ⟨TypeTiny, 0⟩ [50, 48, 48] = .ok (.i64 200)
+    ∧ integerFitsColumn ⟨TypeTiny, 0⟩ (.i64 200) = false := by decide
+
+/-- **C13, one row, wide reading.** If the proxy produces a binary row for a
+    text row every cell of which reads as something (`readRow`), that row
+    decodes completely and to what the text says in every column. -/
+theorem C13_row_exact (ops : FloatOps) (hops : FloatOpsOk ops) (fields : List Field)
+    (cells : List (Option Bytes)) (ds : List Val) (out : Bytes)
+    (hlen : (encodeTextRow cells).length < 2 ^ 62)
+    (hden : readRow ops fields cells = some ds)
+    (hout : rowToBinary ops fields (encodeTextRow cells) = .ok out) :
+    ∃ vs, decodeBinRow fields out = some vs ∧ sameRow vs ds = true := by
+  have hcnt := readRow_len ops fields cells ds hden
+  unfold rowToBinary at hout
+  rw [parseText_encode ops fields cells hcnt (by omega)] at hout
+  cases hc : convertCells ops fields cells with
+  | err e => simp [hc] at hout
+  | ok vals =>
+    simp only [hc] at hout
+    obtain ⟨bm, enc, hshape, hbl, hvl, henc, hbits⟩ := buildBinaryRow_shape ops fields vals out hout
+    obtain ⟨vs, hdec, hsame⟩ := decodeCols_exact ops hops fields cells vals enc ds [] hc henc hden
+      (fun v hv => by have := cell_len_le cells v hv; omega)
+    refine ⟨vs, ?_, hsame⟩
+    subst hshape
+    unfold decodeBinRow
+    simp only
+    rw [takeN_append' bm enc _ hbl.symm]
+    have hn : (List.range fields.length).map (nullBit bm) = nullFlags vals := by
+      rw [← hvl, ← range_nullFlags]
+      apply List.map_congr_left
+      intro i _; exact hbits i
+    simp only [hn]
+    rw [List.append_nil] at hdec
+    rw [hdec]
+
+/-- 300 in a TINYINT column, 2020-13-45 in a DATE column: the first row is
+    refused, the second is sent as it is spelt. -/
+example : readRow exOps [⟨TypeTiny, 0⟩] [some [51, 48, 48]] = some [.int 300]
+    ∧ rowToBinary exOps [⟨TypeTiny, 0⟩] (encodeTextRow [some [51, 48, 48]]) = .err .intRange := by decide
+
+set_option maxRecDepth 4000 in
+example : readRow exOps [⟨TypeDate, 0⟩] [some [50, 48, 50, 48, 45, 49, 51, 45, 52, 53]] = some [.dt 2020 13 45 0 0 0 0]
+    ∧ rowToBinary exOps [⟨TypeDate, 0⟩] (encodeTextRow [some [50, 48, 50, 48, 45, 49, 51, 45, 52, 53]])
+        = .ok [0, 0, 4, 228, 7, 13, 45] := by decide
+
+/-- **C13, a whole resultset, wide reading.** -/
+theorem C13_resultset_exact (ops : FloatOps) (hops : FloatOpsOk ops) (fields : List Field)
+    (rows : List (List (Option Bytes))) (outs : List Bytes)
+    (hout : rowsToBinary ops fields (rows.map encodeTextRow) = .ok outs) :
+    List.Forall₂ (fun cells out => ∀ ds, (encodeTextRow cells).length < 2 ^ 62 →
+        readRow ops fields cells = some ds →
+        ∃ vs, decodeBinRow fields out = some vs ∧ sameRow vs ds = true) rows outs := by
+  have h := rowsToBinary_rows ops fields _ outs hout
+  clear hout
+  induction rows generalizing outs with
+  | nil => cases h; exact List.Forall₂.nil
+  | cons cells rest ih =>
+    rw [List.map_cons] at h
+    cases h with
+    | cons h1 h2 =>
+      exact List.Forall₂.cons (fun ds hlen hden => C13_row_exact ops hops fields cells ds _ hlen hden h1) (ih _ h2)
+
+/-- The wide reading extends the values of the type: `C13_row_correct` is the
+    restriction of `C13_row_exact` to `denoteRow`. -/
+theorem denote_le_read (ops : FloatOps) (fields : List Field) (cells : List (Option Bytes)) (ds : List Val)
+    (h : denoteRow ops fields cells = some ds) : readRow ops fields cells = some ds :=
+  denoteRow_sub_readRow ops fields cells ds h
+
+/-! ### delivery: values a server sends are not answered with an error -/
+
+/-- **C13, delivery of one row.** For every column list and every row of values
+    of the columns' types in a server's spelling (`serverRow`: every type code
+    the binary protocol has an encoding for — all integer widths and
+    signednesses, FLOAT/DOUBLE texts the float parser accepts, both DECIMAL
+    codes, all string/blob/BIT/ENUM/SET/JSON/GEOMETRY codes, DATE, DATETIME and
+    TIMESTAMP including zero, partial and out-of-calendar dates with 0–6
+    fractional digits, TIME to ±838 h) with cells shorter than 2 GiB, the proxy
+    does produce a binary row, and it decodes to the same values. -/
+theorem C13_row_delivered (ops : FloatOps) (hops : FloatOpsOk ops) (fields : List Field)
+    (cells : List (Option Bytes))
+    (hs : serverRow ops fields cells = true) (hcell : ∀ v, some v ∈ cells → v.length < 2 ^ 31)
+    (hlen : (encodeTextRow cells).length < 2 ^ 62) :
+    ∃ out ds vs, rowToBinary ops fields (encodeTextRow cells) = .ok out ∧ denoteRow ops fields cells = some ds
+      ∧ decodeBinRow fields out = some vs ∧ sameRow vs ds = true := by
+  obtain ⟨out, hout⟩ := row_total ops fields cells hs hcell (by omega)
+  obtain ⟨ds, hds⟩ := serverRow_denote ops fields cells hs
+  obtain ⟨vs, hdec, hsame⟩ := C13_row_correct ops hops fields cells ds out hlen hds hout
+  exact ⟨out, ds, vs, hout, hds, hdec, hsame⟩
+
+/-- "0000-00-00 00:00:00.000000" -/
+def exZeroDatetime6 : Bytes :=
+  [48, 48, 48, 48, 45, 48, 48, 45, 48, 48, 32, 48, 48, 58, 48, 48, 58, 48, 48, 46, 48, 48, 48, 48, 48, 48]
+/-- "2020-01-00 10:00:00" -/
+def exZeroDayDatetime : Bytes :=
+  [50, 48, 50, 48, 45, 48, 49, 45, 48, 48, 32, 49, 48, 58, 48, 48, 58, 48, 48]
+
+/-- The zero DATETIME(6) value, a datetime with a zero day, a GEOMETRY value:
+    all refused before the repairs, all delivered now. -/
+example : serverRow exOps [⟨TypeDatetime, 0⟩] [some exZeroDatetime6] = true
+    ∧ rowToBinary exOps [⟨TypeDatetime, 0⟩] (encodeTextRow [some exZeroDatetime6]) = .ok [0, 0, 0] := by decide
+
+example : serverRow exOps [⟨TypeDatetime, 128⟩] [some exZeroDayDatetime] = true
+    ∧ rowToBinary exOps [⟨TypeDatetime, 128⟩] (encodeTextRow [some exZeroDayDatetime])
+        = .ok [0, 0, 11, 228, 7, 1, 0, 10, 0, 0, 0, 0, 0, 0] := by decide
+
+example : serverRow exOps [⟨TypeGeometry, 128⟩] [some [0, 0, 0, 0, 1, 1]] = true
+    ∧ rowToBinary exOps [⟨TypeGeometry, 128⟩] (encodeTextRow [some [0, 0, 0, 0, 1, 1]])
+        = .ok [0, 0, 6, 0, 0, 0, 0, 1, 1] := by decide
+
+theorem rowsToBinary_of_rows (ops : FloatOps) (fields : List Field) (rows : List Bytes)
+    (h : ∀ r ∈ rows, ∃ out, rowToBinary ops fields r = .ok out) :
+    ∃ outs, rowsToBinary ops fields rows = .ok outs := by
+  have hp : ∃ vals, parseRows ops fields rows = .ok vals
+      ∧ ∀ v ∈ vals, ∃ out, buildBinaryRow ops fields v = .ok out := by
+    induction rows with
+    | nil => exact ⟨[], rfl, by simp⟩
+    | cons r rs ih =>
+      obtain ⟨vals, hv, hb⟩ := ih (fun r' hr' => h r' (by simp [hr']))
+      obtain ⟨out, ho⟩ := h r (by simp)
+      unfold rowToBinary at ho
+      cases hpt : parseText ops r fields with
+      | err e => simp [hpt] at ho
+      | ok v =>
+        simp only [hpt] at ho
+        refine ⟨v :: vals, by simp [parseRows, hpt, hv], ?_⟩
+        intro v' hv'
+        rcases List.mem_cons.1 hv' with e | e
+        · subst e; exact ⟨out, ho⟩
+        · exact hb v' e
+  obtain ⟨vals, hv, hb⟩ := hp
+  unfold rowsToBinary
+  rw [hv]
+  simp only
+  clear hv h
+  induction vals with
+  | nil => exact ⟨[], rfl⟩
+  | cons v vs ih =>
+    obtain ⟨out, ho⟩ := hb v (by simp)
+    obtain ⟨outs, hos⟩ := ih (fun v' hv' => hb v' (by simp [hv']))
+    exact ⟨out :: outs, by simp [buildBinaryResultset, ho, hos]⟩
+
+/-- **C13, delivery of a resultset.** -/
+theorem C13_resultset_delivered (ops : FloatOps) (fields : List Field) (rows : List (List (Option Bytes)))
+    (h : ∀ cells ∈ rows, serverRow ops fields cells = true ∧ (∀ v, some v ∈ cells → v.length < 2 ^ 31)
+      ∧ (encodeTextRow cells).length < 2 ^ 62) :
+    ∃ outs, rowsToBinary ops fields (rows.map encodeTextRow) = .ok outs := by
+  apply rowsToBinary_of_rows
+  intro r hr
+  obtain ⟨cells, hc, e⟩ := List.mem_map.1 hr
+  subst e
+  obtain ⟨h1, h2, h3⟩ := h cells hc
+  exact row_total ops fields cells h1 h2 (by omega)
+
+/-! ### byte strings of every size class -/
+
+/-- **A byte-string cell of any length** (TEXT/BLOB/VARCHAR/CHAR/BIT/ENUM/SET/
+    JSON/GEOMETRY, up to 2^62 bytes: all four size classes of the
+    length-encoded codec, NUL and non-UTF-8 bytes included) followed by the
+    sentinel INT 7 becomes: header, null bitmap, the cell's length prefix, the
+    cell, the sentinel.  The driver answers `big` requests (cells of 16 MiB,
+    which it cannot push through the list-based model) from this theorem and
+    `pattern_hash`. -/
+theorem big_cell_row (ops : FloatOps) (ty flag : Nat) (cell : Bytes) (hty : isBytesType ty = true)
+    (hlen : cell.length < 2 ^ 62) :
+    rowToBinary ops [⟨ty, flag⟩, ⟨TypeLong, 0⟩] (encodeTextRow [some cell, some [55]])
+      = .ok (bigRowHead cell.length ++ cell ++ bigRowTail) :=
+  big_cell_row' ops ty flag cell hty hlen
+
+/-- The hash the driver computes by a loop is the hash of the pattern cell. -/
+theorem pattern_hash (n : Nat) : patHash n = hashBytes (patCell n) ∧ (patCell n).length = n :=
+  ⟨patHash_eq n, patCell_length n⟩
+
+example : rowToBinary exOps [⟨TypeBlob, 0⟩, ⟨TypeLong, 0⟩] (encodeTextRow [some (patCell 3), some [55]])
+    = .ok [0, 0, 3, 3, 10, 17, 7, 0, 0, 0] := by decide
+
+/-! ### the open finding: a DATE cell that is no date -/
+
+/-- **Witness (known/C13.json, class `non-date-sent-as-zero-date`).** A DATE
+    cell that is not of the form `YYYY-MM-DD` is neither refused nor read: the
+    client is sent the zero date 0000-00-00.  (`TestAppendBinaryValue` of
+    /repo/mysql pins this behaviour — "string with TypeDate invalid" — so it is
+    listed, not repaired.) -/
+theorem date_garbage_zero_witness :
+    readText exOps ⟨TypeDate, 0⟩ (some [105, 110, 118, 97, 108, 105, 100]) = none
+    ∧ rowToBinary exOps [⟨TypeDate, 0⟩] (encodeTextRow [some [105, 110, 118, 97, 108, 105, 100]]) = .ok [0, 0, 0]
+    ∧ decodeBinRow [⟨TypeDate, 0⟩] [0, 0, 0] = some [.dt 0 0 0 0 0 0 0] := by decide
+
+/-! ### the column definitions sent with the rows -/
+
+/-- **Column definitions are forwarded unchanged.** For every column definition
+    `c` (any schema/table/column names, character set, display length, type
+    code, flag word, decimals) in the packet a server sends for it:
+    `FieldData.Parse` succeeds; the type and flags the row conversion then uses
+    are those of `c`; and `writeColumnDefinition` sends the client the very
+    packet of `c` with the catalog "def" — which the spec's reader reads as
+    `c`.  So the client decodes the rows by the same type, UNSIGNED flag,
+    character set and decimals as the backend declared. -/
+theorem C13_coldef_forwarded (c : ColumnDef) (h : c.wf) :
+    ∃ f, fieldParse (encodeColumnDef c) = .ok f ∧ f.toField = c.toField
+      ∧ writeColumnDefinition f = .ok (encodeColumnDef { c with catalog := defCatalog })
+      ∧ decodeColumnDef (encodeColumnDef { c with catalog := defCatalog }) = some { c with catalog := defCatalog } :=
+  ⟨fieldOf c, fieldParse_encode c h, fieldOf_toField c, write_fieldOf c,
+    decode_encode_coldef _ (wf_def c h)⟩
+
+def exColumn : ColumnDef :=
+  { catalog := defCatalog, schema := [100, 98], table := [116], orgTable := [116], name := [118], orgName := [118],
+    charset := 63, columnLength := 3, typ := TypeTiny, flags := 32, decimals := 0 }
+
+example : exColumn.wf := by simp [ColumnDef.wf, exColumn, defCatalog, TypeTiny]
+
+example : encodeColumnDef exColumn
+      = [3, 100, 101, 102, 2, 100, 98, 1, 116, 1, 116, 1, 118, 1, 118, 12, 63, 0, 3, 0, 0, 0, 1, 32, 0, 0, 0, 0]
+    ∧ fieldParse (encodeColumnDef exColumn) = .ok (fieldOf exColumn)
+    ∧ writeColumnDefinition (fieldOf exColumn) = .ok (encodeColumnDef exColumn) := by decide
+
+/-- **C13, a whole COM_STMT_EXECUTE result.** The backend sends the column
+    definitions `cds` and text rows; if the proxy answers with a result, the
+    client receives the definitions unchanged (catalog "def") and one binary row
+    per text row, in order, each of which — decoded by the types and flags of
+    the definitions the client received — yields what the text row says in
+    every column. -/
+theorem C13_stmt_result_correct (ops : FloatOps) (hops : FloatOpsOk ops) (cds : List ColumnDef)
+    (hwf : ∀ c ∈ cds, c.wf) (rows : List (List (Option Bytes))) (outDefs outs : List Bytes)
+    (h : stmtResult ops (cds.map encodeColumnDef) (rows.map encodeTextRow) = .ok (outDefs, outs)) :
+    outDefs.map decodeColumnDef = cds.map (fun c => some { c with catalog := defCatalog })
+    ∧ List.Forall₂ (fun cells out => ∀ ds, (encodeTextRow cells).length < 2 ^ 62 →
+        readRow ops (cds.map ColumnDef.toField) cells = some ds →
+        ∃ vs, decodeBinRow (cds.map ColumnDef.toField) out = some vs ∧ sameRow vs ds = true) rows outs := by
+  rw [stmtResult_shape ops cds hwf] at h
+  cases hr : rowsToBinary ops (cds.map ColumnDef.toField) (rows.map encodeTextRow) with
+  | err e => simp [hr] at h
+  | ok bins =>
+    simp only [hr, Res.ok.injEq, Prod.mk.injEq] at h
+    obtain ⟨h1, h2⟩ := h
+    subst h1; subst h2
+    refine ⟨?_, C13_resultset_exact ops hops _ rows bins hr⟩
+    rw [List.map_map]
+    apply List.map_congr_left
+    intro c hc
+    exact decode_encode_coldef _ (wf_def c (hwf c hc))
+
+/-- **C13, delivery of a COM_STMT_EXECUTE result.** Well-formed definitions
+    and rows of server values: the proxy answers with the result. -/
+theorem C13_stmt_result_delivered (ops : FloatOps) (cds : List ColumnDef) (hwf : ∀ c ∈ cds, c.wf)
+    (rows : List (List (Option Bytes)))
+    (h : ∀ cells ∈ rows, serverRow ops (cds.map ColumnDef.toField) cells = true
+      ∧ (∀ v, some v ∈ cells → v.length < 2 ^ 31) ∧ (encodeTextRow cells).length < 2 ^ 62) :
+    ∃ outs, stmtResult ops (cds.map encodeColumnDef) (rows.map encodeTextRow)
+      = .ok (cds.map (fun c => encodeColumnDef { c with catalog := defCatalog }), outs) := by
+  obtain ⟨outs, ho⟩ := C13_resultset_delivered ops (cds.map ColumnDef.toField) rows h
+  exact ⟨outs, by rw [stmtResult_shape ops cds hwf, ho]⟩
+
+/-- **No panic on a whole result.** For column definitions as a server sends
+    them and any bytes as rows, the answer is a result or an error kind. -/
+theorem stmt_result_no_panic (ops : FloatOps) (cds : List ColumnDef) (hwf : ∀ c ∈ cds, c.wf) (rows : List Bytes) :
+    stmtResult ops (cds.map encodeColumnDef) rows ≠ .err .panic := by
+  rw [stmtResult_shape ops cds hwf]
+  have := no_panic ops (cds.map ColumnDef.toField) rows
+  cases h : rowsToBinary ops (cds.map ColumnDef.toField) rows with
+  | err e => rw [h] at this; simpa using this
+  | ok bins => simp
 
 end GaeaVerif.C13
